@@ -387,6 +387,43 @@ def check(case):
                 e[k] = e.get(k, Fraction(0)) + C.frac(b["w"])
             if wmap(got.ballots) != e:
                 out.fail(nm, "weights_per_ranking", f"got {wmap(got.ballots)}, expected {e}")
+    # remove_cand on ballots that repeat candidates (raw loader form): every occurrence goes
+    if has_ranking and len(has_ranking) == len(lb):
+        lb3 = [{"r": [[("blank" if p[0] is None else p[0])] for p in b["r"]], "w": b["w"]} for b in lb]
+        toks3 = sorted({p[0] for b in lb3 for p in b["r"]})
+        rem3 = [t for t in toks3 if ("blank" if t is None else t) in {("blank" if x is None else x) for x in non}] or toks3[:1]
+        if case["as_str"]:
+            rem3 = rem3[:1]
+        exp3, lost3 = {}, Fraction(0)
+        for b in lb3:
+            r = [p for p in b["r"] if p[0] not in rem3]
+            if r:
+                exp3[_key(r)] = exp3.get(_key(r), Fraction(0)) + C.frac(b["w"])
+            else:
+                lost3 += C.frac(b["w"])
+        arg3 = rem3[0] if (case["as_str"] and len(rem3) == 1) else rem3
+        for nm, obj in (("remove_cand_repeats_profile", C.mk_profile(lb3, toks3)),
+                        ("remove_cand_repeats_tuple", C.mk_profile(lb3, toks3).ballots)):
+            got, exc, _ = E.call(U.remove_cand, arg3, obj, condense, False)
+            if exc is not None:
+                out.fail(nm, type(exc).__name__, repr(exc))
+                continue
+            gb = got.ballots if hasattr(got, "ballots") else got
+            gm = {}
+            for b in gb:
+                k = tuple(tuple(sorted(str(c) for c in s_)) for s_ in b.ranking)
+                gm[k] = gm.get(k, Fraction(0)) + b.weight
+            if gm != exp3:
+                out.fail(nm, "weights_per_ranking", f"removed {rem3} from {[b['r'] for b in lb3]}: got {gm}, expected {exp3}")
+        first = lb3[0]
+        got, exc, _ = E.call(U.remove_cand, arg3, C.mk_ballot(first), condense, False)
+        r = [p for p in first["r"] if p[0] not in rem3]
+        if exc is not None:
+            out.fail("remove_cand_repeats_ballot", type(exc).__name__, repr(exc))
+        elif r and C.ranking_key(got.ranking) != _key(r):
+            out.fail("remove_cand_repeats_ballot", "value", f"{first['r']} minus {rem3} -> {got.ranking}")
+        elif not r and (got.weight != 0 or got.ranking):
+            out.fail("remove_cand_repeats_ballot", "exhausted_ballot_keeps_weight", f"{got!r}")
     # add_missing_cands on ballots that repeat candidates (raw loader form)
     if has_ranking and len(has_ranking) == len(lb):
         toks = sorted({("blank" if p[0] is None else p[0]) for b in lb for p in b["r"]}) + ["extra1", "extra2"][: case["trunc"] - 1]
